@@ -105,3 +105,19 @@ pub fn special_scalars() -> Vec<char> {
     v.extend([0x110BD, 0x1BCA0, 0x1D173]);
     v.into_iter().filter_map(char::from_u32).collect()
 }
+
+/// scalar values that alias a format character when a code point is truncated to 8 or 16 bits (`c as u8`, `c as u16`) or
+/// compared through its low byte: low byte / low half-word equal to space, `-`, `/`, `\\`, `|`, NUL, LF, CR
+pub fn alias_scalars() -> Vec<char> {
+    let mut v: Vec<u32> = vec![];
+    for low in [0x20u32, 0x2D, 0x2F, 0x5C, 0x7C, 0x00, 0x0A, 0x0D] {
+        for hi in [0x100u32, 0x4E00, 0x3000, 0xFF00, 0x2000, 0x10000, 0x20000, 0x10FF00] {
+            v.push(hi + low);
+        }
+    }
+    // the full-width forms of the format characters themselves
+    v.extend([0xFF0F, 0xFF3C, 0xFF5C, 0xFF0D, 0x3000, 0x2010, 0x2015, 0x2215, 0x29F5, 0xFE68]);
+    v.sort();
+    v.dedup();
+    v.into_iter().filter_map(char::from_u32).filter(|c| *c != '\0').collect()
+}
